@@ -345,7 +345,107 @@ var c19Random = &vlib.Check{
 	},
 }
 
-func init() { vlib.Register(c19Check, c19Random) }
+// c19Faulty: a banned INCLUDE is refused as INCLUDE whatever is wrong with its own parameter or file.  "Every project in
+// which a banned directive occurs is rejected with the not-allowed error on that directive" includes the projects whose
+// banned INCLUDE could not have been resolved anyway: the fault lies inside the banned directive, so no other error
+// precedes it in the text.  (For the other kinds the ban is enforced when the finished tree is added to the catalog,
+// after scan- and compile-time errors; this sub-check is about INCLUDE only, whose ban is enforced at its keyword.)
+var c19IncludeFaults = []struct{ name, line string }{
+	{"missing-file", "INCLUDE nothere.jst"},
+	{"missing-file-quoted", "INCLUDE \"no such.jst\""},
+	{"no-parameter", "INCLUDE"},
+	{"upward-path", "INCLUDE ../up.jst"},
+	{"directory", "INCLUDE adir"},
+	{"empty-name", "INCLUDE \"\""},
+	{"absolute-path", "INCLUDE /etc/hostname"},
+	{"two-parameters", "INCLUDE nothere.jst more"},
+	{"backslash-name", "INCLUDE a\\b.jst"},
+	{"annotation-only", "INCLUDE // note"},
+}
+
+var c19Faulty = &vlib.Check{
+	Prop: "C19", Name: "banned-include-faulty", Quick: 600, Thorough: 40000,
+	SampleOf: func(c *vlib.Case) any {
+		return map[string]any{"banned": c.Project.Banned, "fault": c.Params["fault"], "place": c.Params["place"], "project": c.Project.Summary(400)}
+	},
+	Gen: func(t *rapid.T) *vlib.Case {
+		r := vlib.RapidRnd{T: t}
+		p := genC19Project(r)
+		f := vlib.Pick(r, c19IncludeFaults)
+		root := string(p.Files[p.Root])
+		place := vlib.Pick(r, []string{"first", "first", "last", "nested", "in-file", "in-macro"})
+		switch place {
+		case "first": // before every other directive and every other INCLUDE
+			root = strings.Replace(root, "JSIGHT 0.3\n", "JSIGHT 0.3\n"+f.line+"\n", 1)
+		case "last":
+			root += f.line + "\n"
+		case "nested":
+			root += "URL /fi\n  " + f.line + "\n"
+		case "in-file":
+			p.Files["faulty/part.jst"] = []byte("TYPE @fi\n  1\n" + f.line + "\n")
+			root += "INCLUDE faulty/part.jst\n"
+		case "in-macro":
+			root += "MACRO @fi\n(\n  " + f.line + "\n)\n"
+		}
+		p.Files[p.Root] = []byte(root)
+		p.Dirs = append(p.Dirs, "adir")
+		p.Banned = []string{"INCLUDE"}
+		if vlib.Chance(r, 1, 2) {
+			if x := vlib.Pick(r, c19Kinds); x != "INCLUDE" {
+				p.Banned = append(p.Banned, x)
+				sort.Strings(p.Banned)
+			}
+		}
+		p.BanSplit = vlib.Chance(r, 1, 2)
+		p.ViaPath = vlib.Chance(r, 1, 3)
+		return &vlib.Case{Project: p, Params: map[string]any{"fault": f.name, "place": place}}
+	},
+	Oracle: func(c *vlib.Case) *vlib.Violation {
+		p := c.Project
+		b := vlib.Build(p)
+		defer b.Close()
+		o := b.Out
+		if o.Crashed() {
+			return nil // C01's business
+		}
+		occ := c19Occurrences(p)
+		var present []string
+		for _, k := range p.Banned {
+			if len(occ[k]) > 0 {
+				present = append(present, k)
+			}
+		}
+		if o.OK() {
+			return vlib.V("c19:banned-directive-accepted:INCLUDE", "banned %v; INCLUDE occurs at %v, but the project is accepted", p.Banned, occ["INCLUDE"])
+		}
+		for _, k := range present {
+			if o.Msg == "the directive is not allowed ("+k+")" {
+				for _, at := range occ[k] {
+					if at[0] == o.File && at[1] == fmt.Sprint(o.Line) {
+						return nil
+					}
+				}
+				return vlib.V("c19:not-allowed-error-misplaced:"+k, "banned %v: error %s is not located on an occurrence of %s (%v)", p.Banned, o.Brief(), k, occ[k])
+			}
+		}
+		return vlib.V("c19:other-error-instead-of-ban:INCLUDE:faulty-"+fmt.Sprint(c.Params["fault"]), "banned %v; INCLUDE occurs at %v (one of them faulty: %v, %v), but the error is %s", p.Banned, occ["INCLUDE"], c.Params["fault"], c.Params["place"], o.Brief())
+	},
+	Classify: func(c *vlib.Case) (bool, []string) {
+		// non-trivial: without the ban the project is rejected because of the faulty INCLUDE (the fault is real), i.e. the
+		// ban has to win against another error
+		base := c.Project.Clone()
+		base.Banned = nil
+		b0 := vlib.Build(base)
+		defer b0.Close()
+		cls := []string{"fault-" + fmt.Sprint(c.Params["fault"]), "place-" + fmt.Sprint(c.Params["place"])}
+		if b0.Out.OK() {
+			cls = append(cls, "fault-not-a-fault-without-ban")
+		}
+		return !b0.Out.OK() && !b0.Out.Crashed(), cls
+	},
+}
+
+func init() { vlib.Register(c19Check, c19Random, c19Faulty) }
 
 func TestC19(t *testing.T) {
 	ev := vlib.Ev("C19")
@@ -385,4 +485,5 @@ func TestC19(t *testing.T) {
 		ev.Extra("projects_x_all_ban_sets", len(projects))
 	})
 	t.Run("bans-random", c19Random.Run)
+	t.Run("banned-include-faulty", c19Faulty.Run)
 }
